@@ -107,3 +107,11 @@ claim("C14", "mc-ops", "exploration",
       "same exhaustive operator-case enumeration; layout variants of every input vs contiguous run, bit-exact",
       "Every catalogue case (125 operators) is re-run with each input as a permuted view, a stepped slice of a sentinel-padded buffer, a stride-0 broadcast view along every axis it is constant on, and all inputs non-contiguous at once; outputs must be bit-identical to the contiguous run.",
       "Negative strides do not exist in rten-tensor; TransformInputs wrappers are covered through C01.")
+claim("C34", "mc-bytes", "fault_enumeration",
+      "exhaustive round-trip enumeration (dtype x shape x layout x format) plus exhaustive single-point fault enumeration of seed files in crash/hang-isolating workers",
+      "Round trip: 11 element types x every shape of rank 0-3 over {0,1,2,3} (85) x {contiguous, transposed, stepped, broadcast} x npy / npz (1-3 entries, unusual names) / safetensors: same shape, element type and bit patterns. Malformed: every byte string of length <=2, every truncation and single-byte substitution of six seed files, every u16/u32/u64 field position set to extremes, an npy header box (descr x fortran_order x shape tuples x data length): each reader returns Ok/Err without panic, abort or hang (forked workers, RLIMIT_AS, CPU watchdog).",
+      "Only single-point faults of short seeds; writer-side panics on duplicate safetensors names are recorded as observations (statement is about tensors and reading).")
+claim("C37", "mc-kernels", "exploration",
+      "exhaustive box enumeration (block size x k-blocks x m x n x batch x code fills x scales x compute mode x ISA) against dequantize-then-naive-matmul",
+      "BlockQuantizedGemm in both compute modes on every f32 kernel/ISA and the MatMulNBits operator: block sizes {16,32,64}, k-blocks {1,2,3,9}, n in {1,2,15,16,17,33}, m in {1,2,3}, batch {1,2,3}, 33 4-bit code fills, 4 scale families, exact-integer LHS families (equality oracle in Float and Int8 mode) and a float LHS family (1e-5 forward-error bound, Float mode).",
+      "Int8 compute mode only on the int8-dot ISA that dispatch selects on this host; explicit zero_points / partial final blocks are rejected by rten today (an error, not a wrong product) and are only checked for not producing a wrong result.")
